@@ -86,3 +86,12 @@ func VerifProcessRequest(msg *message.Message, rd *HandlingDataManager) (action.
 func VerifProcessResponse(msg *message.Message, rd *HandlingDataManager) (action.Actions, error) {
 	return processResponse(msg, rd)
 }
+
+// VerifReadRequestArgs / VerifReadResponseArgs: how the handlers read a SPOE message.
+func VerifReadRequestArgs(msg *message.Message) lunar_messages.OnRequest {
+	return readRequestArgs(msg)
+}
+
+func VerifReadResponseArgs(msg *message.Message) lunar_messages.OnResponse {
+	return readResponseArgs(msg)
+}
